@@ -120,7 +120,10 @@ def check_refs(case, ctx):
                 rest = []
             elif op == 'pop' and len(live) > 1:
                 j = h['j'] % len(live)
-                obj.pop(j)
+                if j == len(live) - 1 and h['j'] % 2:
+                    obj.pop()               # documented list semantics: the last one by default
+                else:
+                    obj.pop(j)
                 live.pop(j)
             elif op == 'remove' and len(live) > 1:
                 j = h['j'] % len(live)
